@@ -24,6 +24,13 @@ type caseB struct {
 	V2     bool   `json:"v2"`
 	MaxStr string `json:"max_str,omitempty"` // raw max-keys value (overrides Max when set)
 	Upload bool   `json:"upload,omitempty"`  // a multipart upload with one staged part is in progress in the bucket
+	Past   []past `json:"past,omitempty"`    // what else happened in the bucket and left no object
+}
+
+// past: a key that was named by a request and holds nothing now
+type past struct {
+	Key  string `json:"key"`
+	Kind string `json:"kind"` // refused (upload with a wrong Content-MD5), deleted (stored, then deleted), aborted (multipart upload with one part, aborted)
 }
 
 var (
@@ -79,6 +86,36 @@ func runB(c caseB) error {
 			return fmt.Errorf("SETUP: put directory object %q: %v", k, r)
 		}
 		etags[k] = s3c.ETag(r.Header.Get("ETag"))
+	}
+	for _, p := range c.Past {
+		if _, exists := etags[p.Key]; exists || etags[p.Key+"/"] != "" {
+			continue
+		}
+		path := "/" + bkt + "/" + p.Key
+		switch p.Kind {
+		case "refused":
+			r := cl.MustCall("PUT", path, nil, []s3c.KV{{K: "Content-MD5", V: "1B2M2Y8AsgTpgAmY7PhCfg=="}}, bodyOf(p.Key))
+			if r.OK() {
+				return fmt.Errorf("SETUP: upload of %q with a wrong Content-MD5 answered %v", p.Key, r)
+			}
+		case "deleted":
+			if r := cl.MustCall("PUT", path, nil, nil, bodyOf(p.Key)); !r.OK() {
+				continue // (the name clashes with a stored key: nothing happened)
+			}
+			if r := cl.MustCall("DELETE", path, nil, nil, nil); !r.OK() {
+				return fmt.Errorf("SETUP: delete %q: %v", p.Key, r)
+			}
+		case "aborted":
+			r := cl.MustCall("POST", path, s3c.Q("uploads", ""), nil, nil)
+			var ini s3c.InitiateResult
+			if !r.OK() || s3c.ParseXML(r, &ini) != nil {
+				continue
+			}
+			cl.MustCall("PUT", path, s3c.Q("partNumber", "1", "uploadId", ini.UploadId), nil, []byte("staged part"))
+			if r := cl.MustCall("DELETE", path, s3c.Q("uploadId", ini.UploadId), nil, nil); !r.OK() {
+				return fmt.Errorf("SETUP: abort upload of %q: %v", p.Key, r)
+			}
+		}
 	}
 	if c.Upload {
 		r := cl.MustCall("POST", "/"+bkt+"/upload-in-progress", s3c.Q("uploads", ""), nil, nil)
@@ -203,11 +240,34 @@ func TestC07B(t *testing.T) {
 			ev.Exclude("B:precondition (file/directory clash)")
 			t.Skip("precondition")
 		}
+		if rapid.IntRange(0, 2).Draw(t, "has_past") == 0 {
+			// requests that named other keys and left nothing: nothing of them may be listed
+			np := rapid.IntRange(1, 3).Draw(t, "npast")
+			for i := 0; i < np; i++ {
+				segs := rapid.SliceOfN(nameGen(), 1, 3).Draw(t, "past_segs")
+				k := strings.Join(segs, "/")
+				if len(c.Files) > 0 && rapid.Bool().Draw(t, "past_near") {
+					// next to a stored key: in its directory, or in a directory of its own below it
+					f := rapid.SampledFrom(c.Files).Draw(t, "past_sibling")
+					if j := strings.LastIndex(f, "/"); j >= 0 {
+						k = f[:j+1] + k
+					}
+				}
+				if strings.HasPrefix(k, tmpDir) {
+					continue
+				}
+				c.Past = append(c.Past, past{Key: k, Kind: rapid.SampledFrom([]string{"refused", "refused", "deleted", "aborted"}).Draw(t, "past_kind")})
+			}
+		}
 		ev.Trace("C07B", c)
 		fp, nt, classes := classify(c.caseA)
 		for i := range classes {
 			classes[i] = "B" + classes[i][1:]
 		}
+		for _, p := range c.Past {
+			classes = append(classes, "B:past:"+p.Kind)
+		}
+		fp += fmt.Sprint(c.Past)
 		if c.V2 {
 			classes = append(classes, "B:v2")
 		} else {
